@@ -40,10 +40,7 @@ func ExpandAndReturnIndexNames(indexPattern string, allVirtualTableNames map[str
 	aliasesEntries := []esutils.ResolveAliasEntry{}
 
 	if strings.Contains(indexPattern, "*") {
-		startLimiter := "^"
-		endLimiter := "$"
-		indexPattern = startLimiter + indexPattern + endLimiter
-		indexRegExp, err := regexp.Compile(strings.ReplaceAll(indexPattern, "*", `.*`))
+		indexRegExp, err := regexp.Compile(virtualtable.IndexPatternToRegexStr(indexPattern))
 		if err != nil {
 			log.Infof("ExpandAndReturnIndexNames: Error compiling match: %v", err)
 			return indicesEntries, aliasesEntries, err
